@@ -43,6 +43,7 @@ THEOREMS = ["Cppcheck.ExcFunnel.escape_sound", "Cppcheck.ExcFunnel.no_abort", "C
             "Cppcheck.C13.cert_closed", "Cppcheck.C13.cert_entries_clear",
             "Cppcheck.C13.funnel_complete", "Cppcheck.C13.funnel_complete_partial", "Cppcheck.C13.funnel_full_of_no_alarm", "Cppcheck.C13.rowCodes_wf",
             "Cppcheck.C13.finding_paths_real", "Cppcheck.C13.funnel_full_counterexample",
+            "Cppcheck.C13.budget_verdict", "Cppcheck.C13.budget_perReturns_linear", "Cppcheck.C13.budget_perCall_explodes",
             "Cppcheck.C13.funnel_actions", "Cppcheck.C13.terminate_swallowed", "Cppcheck.C13.funnel_takes_analysis_types"]
 MODULES = ["Cppcheck.Props.C13"]
 
@@ -838,6 +839,119 @@ def gen_lean(M, classified):
     return "\n".join(L) + "\n"
 
 
+# ---- recursion budget of getLifetimeTokens / followAllReferencesInternal (tie T, textual with balanced-parenthesis scanner) ----
+
+BUDGET_FUNCS = [("lib/valueflow.cpp", "getLifetimeTokens"), ("lib/astutils.cpp", "followAllReferencesInternal")]
+
+
+def _match_close(text, i, op, cl):
+    """index of the bracket closing text[i] (== op), skipping string / char literals and comments"""
+    depth, n = 0, len(text)
+    while i < n:
+        c = text[i]
+        if c == '"' or c == "'":
+            q = c; i += 1
+            while i < n and text[i] != q:
+                i += 2 if text[i] == "\\" else 1
+        elif text.startswith("//", i):
+            i = text.find("\n", i)
+            if i < 0:
+                return -1
+        elif text.startswith("/*", i):
+            i = text.find("*/", i) + 1
+        elif c == op:
+            depth += 1
+        elif c == cl:
+            depth -= 1
+            if depth == 0:
+                return i
+        i += 1
+    return -1
+
+
+def _split_args(a):
+    parts, cur, depth, i = [], "", 0, 0
+    while i < len(a):
+        c = a[i]
+        if c in "\"'":
+            j = i + 1
+            while j < len(a) and a[j] != c:
+                j += 2 if a[j] == "\\" else 1
+            cur += a[i:j + 1]; i = j + 1; continue
+        if c in "([{":
+            depth += 1
+        elif c in ")]}":
+            depth -= 1
+        if c == "," and depth == 0:
+            parts.append(cur); cur = ""
+        else:
+            cur += c
+        i += 1
+    parts.append(cur)
+    return parts
+
+
+def extract_budgets():
+    """[(site label, 'perReturns'|'perCall', fanout?)], initial depths.  Raises Unrecognised (fail closed)."""
+    sites, depths = [], []
+    for relp, fname in BUDGET_FUNCS:
+        text = open(os.path.join(REPO, relp), encoding="utf-8", errors="replace").read()
+        m = re.search(r"\bstatic\s+[^;{}()]*?\b" + fname + r"\s*\(", text)
+        if not m:
+            raise Unrecognised("definition of %s not found in %s" % (fname, relp))
+        po = text.index("(", m.end() - 1)
+        pc = _match_close(text, po, "(", ")")
+        params = text[po + 1:pc]
+        md = re.search(r"\bint\s+depth\s*=\s*(\d+)\s*$", params.strip())
+        if not md:
+            raise Unrecognised("%s: last parameter is not `int depth = <n>`: %r" % (fname, params[-60:]))
+        depths.append(int(md.group(1)))
+        bo = text.find("{", pc)
+        if bo < 0 or text[pc + 1:bo].strip():
+            raise Unrecognised("%s: body not found" % fname)
+        bc = _match_close(text, bo, "{", "}")
+        body = text[bo:bc + 1]
+        if not re.search(r"if\s*\(\s*depth\s*<\s*0\s*\)", body):
+            raise Unrecognised("%s: the `if (depth < 0)` stop is missing" % fname)
+        # fan-out loops over the return statements of the callee
+        loops = []
+        for lm in re.finditer(r"for\s*\(\s*const\s+Token\s*\*\s*\w+\s*:\s*returns\s*\)\s*\{", body):
+            lo = lm.end() - 1
+            loops.append((lo, _match_close(body, lo, "{", "}")))
+        if not loops or not re.search(r"returns\s*=\s*Function::findReturns\s*\(\s*f\s*\)", body):
+            raise Unrecognised("%s: loop over `returns = Function::findReturns(f)` not found" % fname)
+        k = 0
+        for cm in re.finditer(r"\b" + fname + r"\s*\(", body):
+            ao = cm.end() - 1
+            ac = _match_close(body, ao, "(", ")")
+            args = [norm(x) for x in _split_args(body[ao + 1:ac])]
+            last = args[-1]
+            fan = any(lo < cm.start() < lc for lo, lc in loops)
+            if last == "depth-returns.size()":
+                ch = "perReturns"
+            elif last == "depth-1":
+                ch = "perCall"
+            else:
+                raise Unrecognised("%s: recursive call #%d passes budget %r (expected `depth - 1` or `depth - returns.size()`)" % (fname, k, last))
+            if not fan and ch != "perCall":
+                raise Unrecognised("%s: recursive call #%d outside the returns loop passes %r" % (fname, k, last))
+            sites.append(("%s#%d" % (fname, k), ch, fan))
+            k += 1
+        if not any(f for (_, _, f) in sites if _):
+            pass
+    return sites, depths
+
+
+def gen_budget_lean(sites, depths):
+    L = ["-- GENERATED by vlib/props/c13.py from lib/valueflow.cpp and lib/astutils.cpp — do not edit.",
+         "import Cppcheck.Model.LifetimeBudget", "namespace Cppcheck.Gen.LifetimeBudget", "open Cppcheck.LifetimeBudget", "",
+         "/-- recursive calls inside the loop over the callee's return statements, with the budget expression they pass -/",
+         "def fanoutCharges : List (String × Charge) := [" + ", ".join('(%s, .%s)' % (json.dumps(n), c) for (n, c, f) in sites if f) + "]",
+         "/-- `int depth = <n>` of the two functions -/",
+         "def initialDepths : List Nat := [" + ", ".join(map(str, depths)) + "]", "", "end Cppcheck.Gen.LifetimeBudget"]
+    return "\n".join(L) + "\n"
+
+
 _MODEL = {}
 
 
@@ -854,6 +968,12 @@ def translate(ctx):
     M = get_model(ctx)
     cl = classify_alarms(M)
     ctx.write_gen("ExceptionFunnel", gen_lean(M, cl))
+    try:
+        sites, depths = extract_budgets()
+        ctx.write_gen("LifetimeBudget", gen_budget_lean(sites, depths))
+        M.budget = (sites, depths, None)
+    except Unrecognised as ex:
+        M.budget = (None, None, str(ex))
     return M, cl
 
 
@@ -1295,6 +1415,15 @@ def run(ctx, res):
     phase("lean")
     new_alarms = []
     if M is not None:
+        bs, bd, berr = M.budget
+        res.oblig("T:recursion-budget-extraction", berr is None, "translation", berr or "")
+        if berr is None:
+            fan = [(n, c) for (n, c, f) in bs if f]
+            bad = [n for (n, c) in fan if c != "perReturns"]
+            res.extra["recursion_budget_sites"] = dict(fanout=fan, other=[(n, c) for (n, c, f) in bs if not f], initial_depths=bd)
+            res.oblig("T:recursion-budget-charged-per-return-statement", not bad and len(fan) == 4 and bd == [20, 20], "translation",
+                      "" if not bad and len(fan) == 4 and bd == [20, 20] else
+                      "fan-out sites that charge `depth - 1` (cost (r)^depth, theorem budget_perCall_explodes): %s; fan-out sites %d (expected 4); initial depths %s" % (bad, len(fan), bd))
         res.extra["funnels"] = [dict(name=f["name"], handlers=["%s -> %s" % h for h in f["handlers"]]) for f in M.funnels]
         res.extra["guard_kinds"] = GUARD_KINDS
         # M2 of the audit: guarded sites are contained only by the translator's AST rule, which the Lean semantics does not trust
